@@ -112,6 +112,46 @@ class SymU:
     def __gt__(s, x): return not s._le(x)
     def __ge__(s, x): return not s._le(x)
 
+    # affine images a*U + b (code that rescales the draw before comparing it): comparisons are mapped back onto U
+    def __mul__(s, k): return _Aff(s, _q(k), F(0))
+    __rmul__ = __mul__
+    def __truediv__(s, k): return _Aff(s, 1 / _q(k), F(0))
+    def __add__(s, k): return _Aff(s, F(1), _q(k))
+    __radd__ = __add__
+    def __sub__(s, k): return _Aff(s, F(1), -_q(k))
+    def __rsub__(s, k): return _Aff(s, F(-1), _q(k))
+    def __neg__(s): return _Aff(s, F(-1), F(0))
+
+
+def _q(x):
+    return F(x) if not isinstance(x, float) else F(x).limit_denominator(10**9)
+
+
+class _Aff:
+    """a * U + b for a symbolic uniform U (a != 0)"""
+
+    def __init__(s, u, a, b):
+        if a == 0:
+            raise TypeError("a symbolic uniform multiplied by zero is a constant; not supported by the scripted source")
+        s.u, s.a, s.b = u, a, b
+
+    def _le(s, x):
+        t = (_q(x) - s.b) / s.a
+        return s.u._le(t) if s.a > 0 else not s.u._le(t)
+
+    def __le__(s, x): return s._le(x)
+    def __lt__(s, x): return s._le(x)
+    def __gt__(s, x): return not s._le(x)
+    def __ge__(s, x): return not s._le(x)
+    def __mul__(s, k): return _Aff(s.u, s.a * _q(k), s.b * _q(k))
+    __rmul__ = __mul__
+    def __truediv__(s, k): return _Aff(s.u, s.a / _q(k), s.b / _q(k))
+    def __add__(s, k): return _Aff(s.u, s.a, s.b + _q(k))
+    __radd__ = __add__
+    def __sub__(s, k): return _Aff(s.u, s.a, s.b - _q(k))
+    def __rsub__(s, k): return _Aff(s.u, -s.a, _q(k) - s.b)
+    def __neg__(s): return _Aff(s.u, -s.a, -s.b)
+
 
 def _key(x):
     return repr(x)
